@@ -50,6 +50,9 @@ type Stats struct {
 	Horizon      int64
 	Transitions  int64
 	States       int64
+	// StatesBeyondCap: state keys seen after the kept set was full and not found in it (an upper bound on
+	// how many distinct states the count States is short of)
+	StatesBeyondCap int64
 	MaxDepth     int
 	Outcomes     map[string]int64
 	Exhaustive   bool
@@ -127,7 +130,7 @@ func Explore(cfg Config) *Stats {
 	e := &explorer{cfg: cfg, st: st, states: map[uint64]struct{}{}, vkeys: map[string]bool{}}
 	e.explore(nil, nil, 0)
 	st.States = int64(len(e.states))
-	if cfg.StatesOut != "" {
+	if cfg.StatesOut != "" && st.StatesBeyondCap == 0 && len(e.states) <= 2<<20 && os.Getenv("VSCHED_NO_STATEFILES") == "" {
 		buf := make([]byte, 0, 8*len(e.states))
 		for k := range e.states {
 			buf = binary.LittleEndian.AppendUint64(buf, k)
@@ -227,18 +230,32 @@ func (e *explorer) explore(prefix []TransKey, sleep []TransKey, level int) {
 	}
 }
 
+// MaxStatesKept bounds the set of distinct happens-before state keys kept per exploration (a metric, not
+// used by the search): beyond it the count is a lower bound and no state file is written.
+const MaxStatesKept = 8 << 20
+
+func (e *explorer) addState(k uint64) {
+	if len(e.states) >= MaxStatesKept {
+		if _, ok := e.states[k]; !ok {
+			e.st.StatesBeyondCap++
+		}
+		return
+	}
+	e.states[k] = struct{}{}
+}
+
 func (e *explorer) account(s *Sched, o Outcome, prefix, sleep []TransKey) {
 	st := e.st
 	for i := len(prefix); i < len(s.nodes); i++ {
 		if s.nodes[i].chosen >= 0 {
 			st.Transitions++
-			e.states[s.nodes[i].stateK] = struct{}{}
+			e.addState(s.nodes[i].stateK)
 		}
 	}
 	if len(prefix) > 0 && len(s.nodes) >= len(prefix) {
 		// the last prefix step is a new transition of this execution
 		st.Transitions++
-		e.states[s.nodes[len(prefix)-1].stateK] = struct{}{}
+		e.addState(s.nodes[len(prefix)-1].stateK)
 	}
 	if len(s.nodes) > st.MaxDepth {
 		st.MaxDepth = len(s.nodes)
